@@ -152,12 +152,15 @@ def run(repo, rep):
     rep.rule('C08.M6', 'the command bytes that are fragmented are written by pydicom\'s dataset writer (ascending tag order whatever '
              'the order the elements were created in) from the whole command set', 1)
     from .c06 import ev_kind as _ev6
-    enc0 = repo.func('dimsemessages', 'DIMSEMessage.encode')
+    from .c06 import _with_filled_containers
+    enc0_written = repo.func('dimsemessages', 'DIMSEMessage.encode')
+    enc0 = _with_filled_containers(enc0_written)
     c6 = SymClient(repo, enc0, event_of=_ev6, hierarchy=hier, inline=repo.is_helper)
     c6.run(empty_state())
     cmd_srcs = sorted({e_.args[0] for e_, _s in c6.log if e_.kind in ('fragment', 'fragment_file') and e_.args
                        and 'command_set' in e_.args[0] and 'data_set' not in e_.args[0]})
     m6_undecided = False
+    filtered_copy = False
     if not cmd_srcs:
         raise AnalysisError('%s: no fragmenter call on the command set found' % enc0.loc())
     for src in cmd_srcs:
@@ -165,6 +168,12 @@ def run(repo, rep):
             rep.ok('C08.M6', 'dimsemessages:DIMSEMessage.encode:writer', enc0.loc(), 'command bytes = dsutils.encode(self.command_set, True, True)')
         elif src.startswith('dsutils.encode(self.command_set'):
             rep.ok('C08.M6', 'dimsemessages:DIMSEMessage.encode:writer', enc0.loc(), 'command bytes = %s (flags: C08.M0)' % src)
+        elif src.replace(' ', '') == 'dsutils.encode(__filled_from__(self.command_set),True,True)':
+            # a data set filled with (some of) the elements of the command set, written by the dataset writer: ascending tag order
+            # all the same; *which* elements are sent must be the ones set_length measures (M9)
+            filtered_copy = True
+            rep.ok('C08.M6', 'dimsemessages:DIMSEMessage.encode:writer', enc0.loc(),
+                   'command bytes = dsutils.encode(<data set filled from self.command_set>, True, True); selection judged by C08.M9')
         else:
             m6_undecided = True
             rep.undecided('C08.M6', '%s: the command set is serialised by %s, not by the dataset writer: the order of the elements on the '
@@ -431,6 +440,68 @@ def run(repo, rep):
                 p5w.append('%s writes _data_set directly (line %d), bypassing the setter that keeps CommandDataSetType in step' % (f5.key, n.lineno))
     rep.check(not p5w, 'C08.M5', 'dimsemessages:DIMSEMessage._data_set:writers', dm.relpath, '%d writer sites' % n_w, '; '.join(p5w))
 
+    # ---------------------------------------------------------------- M9: what is measured is what is sent
+    if filtered_copy:
+        rep.rule('C08.M9', 'when encode() sends a selection of the command set, set_length() measures the same selection: the two '
+                 'predicates are compared, and where they are written differently evaluated on sample elements (value None, \'\', [], b\'\', '
+                 'a text, 0, 1; library fact: an element whose value is empty encodes to its 8-byte header alone)', 1)
+        from ..arith import CannotEvaluate, eval_value
+        sl = repo.func('dimsemessages', 'DIMSEMessage.set_length')
+        p9 = []
+        sel = None
+        for lp in ast.walk(enc0_written.node):
+            if isinstance(lp, ast.For) and 'self.command_set' in norm(lp.iter) and isinstance(lp.target, ast.Name):
+                for st_ in lp.body:
+                    if isinstance(st_, ast.If) and not st_.orelse and any(isinstance(c_, ast.Call) and isinstance(c_.func, ast.Attribute)
+                                                                         and c_.func.attr in ('add', 'append', '__setitem__') for c_ in ast.walk(st_)):
+                        sel = (lp.target.id, st_.test)
+        v_filters, size_filters, v_name = [], [], None
+        for g in [x for x in ast.walk(sl.node) if isinstance(x, (ast.GeneratorExp, ast.ListComp))]:
+            for gen in g.generators:
+                if 'self.command_set' in norm(gen.iter) and isinstance(gen.target, ast.Name):
+                    v_name = gen.target.id
+                    v_filters += list(gen.ifs)
+                elif isinstance(gen.target, ast.Name) and gen.ifs:
+                    size_filters += [(gen.target.id, t_) for t_ in gen.ifs]
+        if sel is None or v_name is None:
+            rep.undecided('C08.M9', '%s: the selection made by encode() or the terms summed by set_length() are not in a form the rule reads'
+                          % enc0_written.loc())
+        else:
+            import copy as _cp
+
+            def rename(e, old_, new_):
+                class R(ast.NodeTransformer):
+                    def visit_Name(self_, n):
+                        return ast.copy_location(ast.Name(id=new_, ctx=n.ctx), n) if n.id == old_ else n
+                return R().visit(_cp.deepcopy(e))
+            SAMPLES = [None, '', [], b'', 'X', 0, 1, [1, 2]]
+            for val in SAMPLES:
+                empty = val is None or (hasattr(val, '__len__') and len(val) == 0)
+                enc_len = 8 if empty else 10
+                for tag in (0x00000100, 0x00000000):
+                    env = {'E.value': val, 'E.tag': tag, 'E.VM': 0 if empty else 1}
+                    try:
+                        sent = bool(eval_value(rename(sel[1], sel[0], 'E'), dict(env)))
+                        meas = all(bool(eval_value(rename(t_, v_name, 'E'), dict(env))) for t_ in v_filters) and \
+                            all(bool(eval_value(rename(t_, nm_, 'S'), {'S': enc_len})) for nm_, t_ in size_filters)
+                    except (CannotEvaluate, Exception) as ex_:
+                        rep.undecided('C08.M9', '%s: the selection predicates cannot be evaluated for value %r: %s' % (enc0_written.loc(), val, ex_))
+                        p9 = None
+                        break
+                    if tag == 0:
+                        # the group length element itself: sent, never measured
+                        if not sent:
+                            p9.append('the group length element is not sent')
+                        continue
+                    if sent != meas:
+                        p9.append('an element with value %r is %s by encode() and %s by set_length(): CommandGroupLength is %d bytes %s'
+                                  % (val, 'sent' if sent else 'left out', 'counted' if meas else 'not counted', enc_len,
+                                     'too small' if sent else 'too large'))
+                if p9 is None:
+                    break
+            if p9 is not None:
+                rep.check(not p9, 'C08.M9', 'dimsemessages:DIMSEMessage:selection-agrees', sl.loc(),
+                          'encode() and set_length() select the same elements on %d sample values' % len(SAMPLES), '; '.join(sorted(set(p9))))
     # ---------------------------------------------------------------- M3
     send = repo.func('asceprovider', 'Association.send')
     rep.analysed(send)
